@@ -111,7 +111,8 @@ func (o *Out) Finish() error {
 		if c.Trivial {
 			continue
 		}
-		h := sha256.Sum256([]byte(c.Coq))
+		ij, _ := json.Marshal(c.Input)
+		h := sha256.Sum256(append([]byte(c.Scenario+"|"+c.Coq+"|"), ij...))
 		k := hex.EncodeToString(h[:8])
 		if !seen[k] {
 			seen[k] = true
